@@ -345,6 +345,15 @@ func (tc *taintCtx) call(fn *ssa.Function, ci ssa.CallInstruction, tainted map[s
 	if handled {
 		return
 	}
+	// parsers of pion/rtp keep slices of their input in the receiver (payload, extension payloads): the object
+	// parsed into now refers to the caller's bytes
+	if externalParsers[name] && len(args) >= 2 && tainted[args[1]] {
+		mark(args[0])
+		markCarrier(args[0])
+		if u, ok := args[0].(*ssa.UnOp); ok {
+			mark(u.X)
+		}
+	}
 	// external callee (or no body): result may alias a tainted receiver/argument unless it is known to be fresh
 	if val != nil {
 		n := ""
@@ -358,6 +367,12 @@ func (tc *taintCtx) call(fn *ssa.Function, ci ssa.CallInstruction, tainted map[s
 			mark(val)
 		}
 	}
+}
+
+// externalParsers: non-repository methods that store sub-slices of their argument in their receiver (pion/rtp v1.10.5).
+var externalParsers = map[string]bool{
+	"(*github.com/pion/rtp.Packet).Unmarshal": true,
+	"(*github.com/pion/rtp.Header).Unmarshal": true,
 }
 
 func refishResult(t types.Type) bool {
